@@ -49,7 +49,7 @@ func init() {
 			wg.Wait()
 		})
 		if !ok {
-			return "HANG\t!two evaluations swapping two atoms crosswise from inside their update functions block forever"
+			return "BLOCKED\t!two evaluations swapping two atoms crosswise from inside their update functions block forever"
 		}
 		if bad != "" {
 			return bad + "\t!crossed swap! failed"
@@ -82,7 +82,7 @@ func init() {
 func repeatFuture(iters int, src, want, why string) string {
 	var mu sync.Mutex
 	badN, total, sample := 0, 0, ""
-	ok := within(concWatchdog*7, func() {
+	ok := within(concWatchdog*4, func() {
 		var wg sync.WaitGroup
 		for g := 0; g < concPar(); g++ {
 			wg.Add(1)
@@ -107,7 +107,7 @@ func repeatFuture(iters int, src, want, why string) string {
 		wg.Wait()
 	})
 	if !ok {
-		return "HANG\t!" + why + " (blocked)"
+		return "BLOCKED\t!" + why + " (blocked)"
 	}
 	if badN > 0 {
 		return fmt.Sprintf("bad %s\t!%s (%d of %d runs; expected %s)", sample, why, badN, total, want)
